@@ -7,6 +7,7 @@ import (
 	"sort"
 	"strings"
 	"sync"
+	"sync/atomic"
 
 	"github.com/richardwilkes/toolbox/notifier"
 	"verifharness/hx"
@@ -28,6 +29,10 @@ type target struct {
 func (t *target) HandleNotification(name string, _, _ any) {
 	t.log.add(fmt.Sprintf("%d:%s", t.id, hx.Hex(name)))
 	if t.panic {
+		if atomic.AddInt64(&panicCount, 1)%2 == 0 {
+			var np *int
+			panic(np) // a typed nil inside a non-nil interface is still a panic
+		}
 		panic("target panics")
 	}
 }
@@ -236,5 +241,7 @@ func run(c string) (obs string) {
 	}
 	return strings.Join(done, " / ")
 }
+
+var panicCount int64
 
 func main() { hx.Main(gen, run) }
